@@ -109,7 +109,7 @@ def main():
     cases = []
     for fam in ('uri', 'iri'):
         g = Gen(random.Random(rnd.random()), fam)
-        for _ in range(20000 if thorough else 3000):
+        for _ in range(100000 if thorough else 3000):
             p = g.anypath().encode()
             n = len(seg_ranges(p))
             for _ in range(3):
